@@ -116,6 +116,25 @@ func properties() map[string]*Property {
 		"the master JSON transducer (cmd/rjv/jsonspec.go, written from RFC 8259 + nesting limit 10000) is the specification; its agreement with encoding/json (Valid and streaming-decoder offsets) was checked on 11.3M enumerated strings and at the depth limit (go test ./cmd/rjv), which is a bounded validation of the spec, not a proof about encoding/json",
 		"M-run: the absorption lemma (Dead/Done are absorbing) is used through its instances; its base and step cases are discharged as obligations spec/absorb/*",
 	}
+	ps["C05"] = &Property{ID: "C05", Level: "proof",
+		Jobs:   hostile("ReadUint64", "ReadUint32", "ReadInt64", "ReadInt32", "ReadInt", "ReadUint", "countWhitespace"),
+		Labels: []string{"C05"},
+		Extra:  []string{"dv-lemmas"},
+		Assume: []string{
+			"the integer literal specification (global lets uintok/uintval/intval in the contract file) is RFC 8259 `int` with the value as a 128-bit decimal fold DV saturating at 2^64; DV is characterised by base/step axioms instantiated at the indices a path reads, plus the stickiness lemma (saturation persists), whose step case is discharged as spec/DVsticky/step",
+			"ReadInt / ReadUint: strconv.IntSize folds to 64 on this platform; the 32-bit arm is not analysed",
+			"the Decode forms are covered by C12 (they behave as the reader)",
+		},
+	}
+	ps["C13"] = &Property{ID: "C13", Level: "proof",
+		Jobs: hostile("NextToken", "NextTokenType", "countWhitespace", "readNull", "readBool", "ReadNull", "ReadBool",
+			"ReadUint64", "ReadUint32", "ReadInt64", "ReadInt32", "ReadInt", "ReadUint", "ReadStringBytes", "ReadString"),
+		Labels: []string{"C13"},
+		Assume: []string{
+			"token classes: tokclass(b) in rjv is the RFC 8259 token table numbered like the TokenType constants; the package tables tokenTypes and whitespace are read from their composite literals on every run and compared with it inside the proofs of NextToken/NextTokenType/countWhitespace (every one of the 256 entries matters to some obligation)",
+			"exclusivity: every reader's contract carries err == nil ==> tokclass(first non-whitespace byte) == its class; the classes are pairwise different constants. ReadFloat64's exclusivity rests on the assumed contract of internal/fp (its first byte is '-' or a digit) and is not part of this check",
+		},
+	}
 	ps["C01"] = &Property{ID: "C01", Level: "proof",
 		Jobs:   append(simJobs("skipValue", "skipFloatDec", "skipFloatExp", "Valid"), hostile("countWhitespace")...),
 		Labels: []string{"C01"},
